@@ -234,7 +234,31 @@ func (x *FnExec) bitAndInt(a, b *Term, bt *types.Basic) *Term {
 			return tc.Mul(tc.Mod(tc.Div(a, tc.BigInt(pow2(lo))), tc.BigInt(pow2(n))), tc.BigInt(pow2(lo)))
 		}
 	}
-	unsupp("bitwise & with non-mask operand in int mode (use mode bv)")
+	if bv, ok := b.intConst(); ok && bv.Sign() >= 0 {
+		// general constant: sum of its runs of ones (few runs only)
+		var runs [][2]int
+		n := bv.BitLen()
+		for i := 0; i < n; {
+			if bv.Bit(i) == 0 {
+				i++
+				continue
+			}
+			j := i
+			for j < n && bv.Bit(j) == 1 {
+				j++
+			}
+			runs = append(runs, [2]int{i, j - i})
+			i = j
+		}
+		if len(runs) <= 8 {
+			r := tc.Int(0)
+			for _, rn := range runs {
+				r = tc.Add(r, tc.Mul(tc.Mod(tc.Div(a, tc.BigInt(pow2(rn[0]))), tc.BigInt(pow2(rn[1]))), tc.BigInt(pow2(rn[0]))))
+			}
+			return r
+		}
+	}
+	unsupp("bitwise & with non-constant operands in int mode (use mode bv)")
 	return nil
 }
 
